@@ -447,7 +447,7 @@ class _ScopeContext:
                 while (sent := (yield f)) is not None:
                     subrecurse = sent
 
-                if subrecurse and check_all_param(f := a.ctx.f):  # truly pedantic, but maybe the user really really really wants that .ctx?
+                if subrecurse and (a := f.a) and check_all_param(f := a.ctx.f):  # truly pedantic, but maybe the user really really really wants that .ctx? re-read `a` because node may have been replaced or removed while yielded
                     while (yield f) is not None:  # eat all the user's send()s
                         pass
 
